@@ -77,11 +77,33 @@ func (fs *FileSystem) Store(bom *sbom.Document, opts *StoreOptions) error {
 		return err
 	}
 
-	if opts.NoClobber && util.Exists(filepath.Join(fs.Options.Path, filename)) {
+	path := filepath.Join(fs.Options.Path, filename)
+	if opts.NoClobber && util.Exists(path) {
 		return fmt.Errorf("there is already an entry for the specified document (and NoClobber = true)")
 	}
 
-	if err := os.WriteFile(filepath.Join(fs.Options.Path, filename), out, os.FileMode(0o644)); err != nil {
+	// Write the entry to a temporary file and rename it into place, so that
+	// a crash never leaves an empty or partially written entry behind.
+	tmp, err := os.CreateTemp(fs.Options.Path, filename+".*.tmp")
+	if err != nil {
+		return fmt.Errorf("writing data to disk: %w", err)
+	}
+	tmpName := tmp.Name()
+	if _, err := tmp.Write(out); err != nil {
+		tmp.Close()
+		os.Remove(tmpName)
+		return fmt.Errorf("writing data to disk: %w", err)
+	}
+	if err := tmp.Close(); err != nil {
+		os.Remove(tmpName)
+		return fmt.Errorf("writing data to disk: %w", err)
+	}
+	if err := os.Chmod(tmpName, os.FileMode(0o644)); err != nil {
+		os.Remove(tmpName)
+		return fmt.Errorf("writing data to disk: %w", err)
+	}
+	if err := os.Rename(tmpName, path); err != nil {
+		os.Remove(tmpName)
 		return fmt.Errorf("writing data to disk: %w", err)
 	}
 
